@@ -1,12 +1,14 @@
 (* C15 - Bot plugin: legality gate and threefold detection over any history.
    Proved (model level): make_move applies the move exactly when is_legal accepts it, otherwise the
    state is unchanged and (false, false) is reported; set_board clears the repetition table.
-   OPEN: the refinement of the hash-keyed repetition table to "third occurrence of a position since the
-   board was set" (needs board_eqb -> equal hash, i.e. the C04 invariant) - C15_threefold_statement;
-   decided per run by driving the real cdylib through its stable interface with the abstract history
+   The hash-keyed repetition table raises its flag exactly on the third occurrence (board_eqb = same
+   placement, side, rights, e.p. file) among the boards added since it was cleared, for histories of ANY
+   length, provided equal boards carry equal piece hashes - which C04 proves for boards whose hash is the
+   from-scratch one (C15_threefold, C15_equal_boards_equal_hash).  OPEN: hash consistency of every board
+   the bot reaches (needs C04's open link from legality to the local move conditions); decided per run by driving the real cdylib through its stable interface with the abstract history
    spec as monitor.  Interpretation (DESIGN.md): the position handed to set_board is not itself counted. *)
 From Coq Require Import NArith List Bool.
-From Chess Require Import base.Types model.Board model.MoveGen model.Apply model.Search model.Bot.
+From Chess Require Import base.Types model.Board model.MoveGen model.Apply model.Search model.Bot proofs.HashFacts proofs.BotFacts.
 Import ListNotations.
 Local Open Scope N_scope.
 
@@ -24,21 +26,13 @@ Theorem C15_set_board_clears : forall b, bt_tf (bot_set_board b) = [] /\ bt_boar
 Proof. intros b. split; reflexivity. Qed.
 Print Assumptions C15_set_board_clears.
 
-(* the refinement that remains to be proved: the flag of the k-th accepted move is raised iff the board it
-   produces occurs for the third time among the boards produced since set_board (board_eqb = same
-   placement, side, rights, e.p. file), provided equal boards carry equal piece hashes *)
-Fixpoint add_all (tf : threefold) (bs : list board) : threefold * list bool :=
-  match bs with
-  | [] => (tf, [])
-  | b :: r => let '(tf1, f) := tf_add tf b in let '(tf2, fs) := add_all tf1 r in (tf2, f :: fs)
-  end.
-Fixpoint occurrences (b : board) (l : list board) : nat :=
-  match l with [] => O | x :: r => (if board_eqb x b then 1 else 0) + occurrences b r end.
-Fixpoint expected_flags (seen : list board) (bs : list board) : list bool :=
-  match bs with
-  | [] => []
-  | b :: r => Nat.eqb (S (occurrences b seen)) 3 :: expected_flags (b :: seen) r
-  end.
-Definition C15_threefold_statement : Prop :=
-  forall bs, (forall x y, In x bs -> In y bs -> board_eqb x y = true -> b_zob x = b_zob y) ->
-    (length bs <= 255)%nat -> snd (add_all [] bs) = expected_flags [] bs.
+Theorem C15_threefold : forall bs,
+  (forall x y, In x bs -> In y bs -> board_eqb x y = true -> b_zob x = b_zob y) ->
+  snd (add_all [] bs) = expected_flags [] bs.
+Proof. exact threefold_flags_unbounded. Qed.
+Print Assumptions C15_threefold.
+
+Theorem C15_equal_boards_equal_hash : forall a b, consistent a -> consistent b -> board_eqb a b = true ->
+  b_zob a = b_zob b /\ zobrist a = zobrist b.
+Proof. exact eq_boards_eq_hash_strong. Qed.
+Print Assumptions C15_equal_boards_equal_hash.
